@@ -325,6 +325,11 @@ def oracle(req_, impl):
         if not cif2_string(units):
             continue
         _, wrc, rc, nerr, ferr, items, kind, quoted, text = q
+        if 13 in units:
+            # a carriage return cannot be presented: cif_write refuses the value (CIF_DISALLOWED_VALUE)
+            if int(wrc) != 62:
+                return "probe W (cif_write of a string holding a CR): cif_write returned %s, not CIF_DISALLOWED_VALUE" % wrc
+            continue
         if int(wrc) != 0:
             return "probe W (text field through cif_write): cif_write returned %s" % wrc
         if int(rc) != 0 or int(nerr) != 0:
